@@ -138,6 +138,13 @@ func (w *l2World) endOfBlock(bc blockCtx, res *abci.ResponseFinalizeBlock, anySu
 	if v := w.checkHistory(ctx, bc); v != nil {
 		return v
 	}
+	// --- a refused deposit leaves nothing behind, not even an account at the refused address
+	for a := range w.m.Blocked {
+		acc := w.n.AK.GetAccount(ctx, sdk.AccAddress(a))
+		if _, isMod := acc.(sdk.ModuleAccountI); acc != nil && !isMod && !w.m.MayPlain[a] {
+			return w.fail(mismatch{"l2deposit.residue", "account-left-at-refused-address", []string{"C07"}, fmt.Sprintf("a plain account exists at the blocked address %s although nothing but refused (refunded) deposits ever named it", sdk.AccAddress(a))})
+		}
+	}
 	// --- ledger and supply
 	seen := map[string]bool{}
 	for _, bal := range w.n.BK.GetAccountsBalances(ctx) {
